@@ -1303,3 +1303,66 @@ Proof. intros Hin H. rewrite unmarshal_arr, (dec_list_none unmarshal l x Hin H).
 
 Theorem unmarshal_duplicate_member ms : nodupb (map fst ms) = false -> unmarshal (JObj ms) = None.
 Proof. intros H. rewrite unmarshal_obj. unfold dec_object. rewrite H. reflexivity. Qed.
+
+(* ---- corollaries used by Props/C14.v ------------------------------------------------------------ *)
+
+Lemma json_perm_refl j : json_perm j j.
+Proof.
+  induction j as [| v | t i | s | l IH | ms IH] using json_ind'; try constructor.
+  - induction IH; constructor; assumption.
+  - apply (JP_obj ms ms ms); [|apply Permutation_refl].
+    induction IH as [|[k v] r Hkv _ IHr]; constructor; [split; [reflexivity|exact Hkv]|exact IHr].
+Qed.
+
+Theorem parse_print s :
+  wf_gschema s -> unmarshal (marshal s) = Some (gs_meaning s) /\ gschema_equiv s (gs_meaning s).
+Proof.
+  intros H. split; [apply unmarshal_marshal; exact H|]. unfold gschema_equiv. symmetry. apply gs_meaning_idem.
+Qed.
+
+Theorem parse_print_exact s : gs_normal s = true -> unmarshal (marshal s) = Some s.
+Proof.
+  intros H. destruct (gs_normal_wf_fix s H) as [Hwf Hfix]. rewrite (unmarshal_marshal s Hwf), Hfix. reflexivity.
+Qed.
+
+Theorem reparse_stable j s :
+  unmarshal j = Some s ->
+  unmarshal (marshal s) = Some (gs_meaning s) /\ gs_normal (gs_meaning s) = true /\
+  unmarshal (marshal (gs_meaning s)) = Some (gs_meaning s).
+Proof.
+  intros H. pose proof (unmarshal_wf j s H) as Hwf. split; [apply unmarshal_marshal; exact Hwf|].
+  pose proof (gs_wf_meaning_normal s Hwf) as Hn. split; [exact Hn|apply parse_print_exact; exact Hn].
+Qed.
+
+Theorem strip_determines j j' :
+  json_nodup j = true -> json_nodup j' = true -> strip j = strip j' -> unmarshal j = unmarshal j'.
+Proof. intros H H' E. rewrite <- (unmarshal_strip j H), <- (unmarshal_strip j' H'), E. reflexivity. Qed.
+
+Theorem marshal_valid s :
+  json_nodup (marshal s) = true /\
+  (json_text_ok (marshal s) = true -> marshal_impl s = Some (marshal s)) /\
+  (json_text_ok (marshal s) = false -> marshal_impl s = None).
+Proof.
+  split; [apply marshal_nodup|]. unfold marshal_impl. split; intros H; rewrite H; reflexivity.
+Qed.
+
+(* the kinds each attribute accepts *)
+Theorem kind_errors :
+  (forall v, dec_string v = None <-> match v with JStr _ | JNull => False | _ => True end) /\
+  (forall v, dec_int v = None <->
+     match v with JNull => False | JNum _ (Some z) => int_ok z = false | _ => True end) /\
+  (forall A (f : json -> option A) v, match v with JArr _ | JNull => False | _ => True end -> dec_slice f v = None) /\
+  (forall v, match v with JStr _ | JArr _ | JObj _ => False | _ => True end -> unmarshal v = None) /\
+  (forall v, match v with JObj _ | JNull => False | _ => True end -> dec_field unmarshal v = None).
+Proof.
+  repeat split.
+  - destruct v; cbn [dec_string]; intros H; try exact I; discriminate.
+  - destruct v; cbn [dec_string]; intros H; try reflexivity; contradiction.
+  - destruct v as [| | t [z|] | | |]; cbn [dec_int]; intros H; try exact I; try discriminate.
+    destruct (int_ok z); [discriminate|reflexivity].
+  - destruct v as [| | t [z|] | | |]; cbn [dec_int]; intros H; try reflexivity; try contradiction.
+    rewrite H. reflexivity.
+  - intros A f v H. destruct v; cbn [dec_slice]; try reflexivity; contradiction.
+  - intros v H. destruct v; try reflexivity; contradiction.
+  - intros v H. destruct v; try reflexivity; contradiction.
+Qed.
